@@ -150,6 +150,10 @@ func (te *TypeEnv) SortOf(t types.Type) string {
 	case *types.Struct:
 		return te.declStructDT(t)
 	case *types.Array:
+		// arrays of scalar elements as values ([2]string, [4]int, ...): an SMT array over the indices
+		if b, ok := u.Elem().Underlying().(*types.Basic); ok && b.Kind() != types.UnsafePointer && b.Kind() != types.UntypedNil {
+			return fmt.Sprintf("(Array Int %s)", te.SortOf(u.Elem()))
+		}
 		subsetf("array value type %s not modelled", t)
 	case *types.Tuple:
 		subsetf("tuple as value")
@@ -296,6 +300,10 @@ func (te *TypeEnv) ZeroOfSort(s string, t types.Type) string {
 		return "(mkslice 0 0 0 0)"
 	case SIface:
 		return "iface_nil"
+	}
+	if strings.HasPrefix(s, "(Array Int ") {
+		inner := strings.TrimSuffix(strings.TrimPrefix(s, "(Array Int "), ")")
+		return fmt.Sprintf("((as const %s) %s)", s, te.ZeroOfSort(inner, nil))
 	}
 	if strings.HasPrefix(s, "V_") && t != nil {
 		st := t.Underlying().(*types.Struct)
